@@ -453,3 +453,167 @@ def _gen_base_init(rng, model):
     obj = BaseKFACPreconditioner.__new__(BaseKFACPreconditioner)
     params = dict(self=obj, layers=layers, assignment=assignment, tdc=tdc, **kw)
     return Case(BaseKFACPreconditioner.__init__, params, [obj, layers], dict(assignment=assignment, tdc=tdc, **kw))
+
+
+# ----------------------------------------------------------------------------- tensors / module helpers
+def rand_tensor(rng, *shape, dtype=None):
+    import torch
+    g = torch.Generator().manual_seed(rng.randrange(1 << 30))
+    t = torch.randn(*shape, generator=g, dtype=torch.float64)
+    return t.to(dtype or rng.choice([torch.float32, torch.float64]))
+
+
+def with_grads(rng, module):
+    for p in module.parameters():
+        p.grad = rand_tensor(rng, *p.shape, dtype=p.dtype)
+    return module
+
+
+def rand_linear(rng):
+    import torch
+    return with_grads(rng, torch.nn.Linear(rng.randrange(1, 6), rng.randrange(1, 6), bias=rng.random() < 0.6))
+
+
+def rand_conv(rng):
+    import torch
+    k = (rng.randrange(1, 4), rng.randrange(1, 4))
+    return with_grads(rng, torch.nn.Conv2d(rng.randrange(1, 4), rng.randrange(1, 4), k,
+                                           stride=(rng.randrange(1, 3), rng.randrange(1, 3)),
+                                           padding=(rng.randrange(0, 3), rng.randrange(0, 3)),
+                                           bias=rng.random() < 0.6))
+
+
+@builder('ModuleHelper')
+def build_helper(rng):
+    from kfac.layers.modules import LinearModuleHelper, Conv2dModuleHelper
+    if rng.random() < 0.5:
+        return LinearModuleHelper(rand_linear(rng))
+    return Conv2dModuleHelper(rand_conv(rng))
+
+
+@builder('LinearModuleHelper')
+def build_linear_helper(rng):
+    from kfac.layers.modules import LinearModuleHelper
+    return LinearModuleHelper(rand_linear(rng))
+
+
+@builder('Conv2dModuleHelper')
+def build_conv_helper(rng):
+    from kfac.layers.modules import Conv2dModuleHelper
+    return Conv2dModuleHelper(rand_conv(rng))
+
+
+@gen('kfac.layers.modules:ModuleHelper.set_grad')
+def _gen_set_grad(rng, model):
+    from kfac.layers.modules import ModuleHelper
+    h = build_helper(rng)
+    g = h.get_grad()
+    grad = rand_tensor(rng, *g.shape, dtype=g.dtype)
+    if rng.random() < 0.3:
+        grad = grad.t().contiguous().t()       # non-contiguous input
+    return Case(type(h).set_grad, {'self': h, 'grad': grad}, [h, grad], {})
+
+
+@gen('kfac.layers.utils:get_cov')
+def _gen_get_cov(rng, model):
+    from kfac.layers.utils import get_cov
+    r = rng.random()
+    a = rand_tensor(rng, rng.randrange(1, 6), rng.randrange(1, 5)) if r < 0.85 else rand_tensor(rng, 2, 2, 2)
+    b = None
+    if rng.random() < 0.3:
+        b = rand_tensor(rng, *a.shape, dtype=a.dtype) if rng.random() < 0.8 else rand_tensor(rng, a.shape[0] + 1, 2, dtype=a.dtype)
+    scale = rng.choice([None, None, 2, 5, 0.5])
+    return Case(get_cov, {'a': a, 'b': b, 'scale': scale}, [a, b, scale], {})
+
+
+@gen('kfac.layers.utils:append_bias_ones')
+def _gen_abo(rng, model):
+    from kfac.layers.utils import append_bias_ones
+    shape = [rng.randrange(1, 5) for _ in range(rng.randrange(1, 4))]
+    t = rand_tensor(rng, *shape)
+    return Case(append_bias_ones, {'tensor': t}, [t], {})
+
+
+def _conv_input(rng, m):
+    kh, kw = m.kernel_size
+    h = rng.randrange(max(1, kh - 2 * m.padding[0]), 8)
+    w = rng.randrange(max(1, kw - 2 * m.padding[1]), 8)
+    return rand_tensor(rng, rng.randrange(1, 4), m.in_channels, h, w, dtype=m.weight.dtype)
+
+
+@gen('kfac.layers.modules:Conv2dModuleHelper._extract_patches')
+def _gen_patches(rng, model):
+    from kfac.layers.modules import Conv2dModuleHelper
+    h = build_conv_helper(rng)
+    x = _conv_input(rng, h.module)
+    return Case(Conv2dModuleHelper._extract_patches, {'self': h, 'x': x}, [h, x], {})
+
+
+@gen('kfac.layers.modules:Conv2dModuleHelper.get_a_factor')
+def _gen_conv_a(rng, model):
+    from kfac.layers.modules import Conv2dModuleHelper
+    h = build_conv_helper(rng)
+    x = _conv_input(rng, h.module)
+    return Case(Conv2dModuleHelper.get_a_factor, {'self': h, 'a': x}, [h, x], {})
+
+
+@gen('kfac.layers.modules:Conv2dModuleHelper.get_g_factor')
+def _gen_conv_g(rng, model):
+    from kfac.layers.modules import Conv2dModuleHelper
+    h = build_conv_helper(rng)
+    g = rand_tensor(rng, rng.randrange(1, 4), h.module.out_channels, rng.randrange(1, 5), rng.randrange(1, 5))
+    return Case(Conv2dModuleHelper.get_g_factor, {'self': h, 'g': g}, [h, g], {})
+
+
+@gen('kfac.layers.modules:LinearModuleHelper.get_a_factor')
+def _gen_lin_a(rng, model):
+    from kfac.layers.modules import LinearModuleHelper
+    h = build_linear_helper(rng)
+    lead = [rng.randrange(1, 4) for _ in range(rng.randrange(1, 4))]
+    a = rand_tensor(rng, *lead, h.module.in_features, dtype=h.module.weight.dtype)
+    return Case(LinearModuleHelper.get_a_factor, {'self': h, 'a': a}, [h, a], {})
+
+
+@gen('kfac.layers.modules:LinearModuleHelper.get_g_factor')
+def _gen_lin_g(rng, model):
+    from kfac.layers.modules import LinearModuleHelper
+    h = build_linear_helper(rng)
+    lead = [rng.randrange(1, 4) for _ in range(rng.randrange(1, 4))]
+    g = rand_tensor(rng, *lead, h.module.out_features, dtype=h.module.weight.dtype)
+    return Case(LinearModuleHelper.get_g_factor, {'self': h, 'g': g}, [h, g], {})
+
+
+# ---- helpers whose module gradients come from a real forward/backward pass (C15 outer-product clause)
+def autograd_helper(rng, kind=None):
+    import torch
+    from kfac.layers.modules import LinearModuleHelper, Conv2dModuleHelper
+    kind = kind or rng.choice(['linear', 'conv'])
+    if kind == 'linear':
+        m = torch.nn.Linear(rng.randrange(1, 6), rng.randrange(1, 6), bias=rng.random() < 0.6).double()
+        lead = [rng.randrange(1, 4) for _ in range(rng.randrange(1, 3))]
+        x = rand_tensor(rng, *lead, m.in_features, dtype=torch.float64)
+        h = LinearModuleHelper(m)
+    else:
+        m = rand_conv(rng).double()
+        x = _conv_input(rng, m).double()
+        h = Conv2dModuleHelper(m)
+    for p in m.parameters():
+        p.grad = None
+    y = m(x)
+    gout = rand_tensor(rng, *y.shape, dtype=torch.float64)
+    y.backward(gout)
+    h._vp_input, h._vp_gout = x, gout
+    return h
+
+
+def _gen_get_grad(cls_name):
+    @gen(f'kfac.layers.modules:{cls_name}.get_grad')
+    def g(rng, model):
+        import kfac.layers.modules as M
+        h = autograd_helper(rng, 'conv' if cls_name == 'Conv2dModuleHelper' else 'linear')
+        return Case(getattr(M, cls_name).get_grad, {'self': h}, [h], {})
+    return g
+
+
+_gen_get_grad('ModuleHelper')
+_gen_get_grad('Conv2dModuleHelper')
